@@ -176,6 +176,11 @@ func c05Case(t *core.T, steps int, defaultScrypt bool) {
 		t.Fatalf("node: %v", err)
 	}
 	defer n.Close()
+	// the public-passphrase clause at keystore level (its own small database)
+	c05PubPassPhase(t, filepath.Join(t.Dir, "ksdb"))
+	if t.Failed() {
+		return
+	}
 	pub := randPass(t.R)
 	dir := filepath.Join(t.Dir, "wallet")
 	var ops []string
